@@ -106,14 +106,14 @@ def truth_forks(I, st, b):
         return [(st, bool(b))]
     out = []
     if isinstance(b, tuple) and b and b[0] == "cmp":
-        _, op, x, y = b
-        d = I.decide_cmp(st, op, x, y)
+        _, op, x, y, oty = b
+        d = I.decide_cmp(st, op, x, y, oty)
         if d is not None:
             return [(st, d)]
         for truth in (True, False):
             s2 = st.fork()
-            if I.assume_cmp(s2, op, x, y, truth):
-                s2.pc.append((b, truth, None))
+            if I.assume_cmp(s2, op, x, y, truth, oty):
+                s2.add_pc(b, truth, None)
                 out.append((s2, truth))
         return out
     return [(st.fork(), True), (st.fork(), False)]
@@ -127,12 +127,12 @@ def m_remove_if(I, st, t, args, site, depth):
     # key absent: the closure does not run
     s0 = st.fork()
     _ev(I, s0, t, site, "remove_if", map=mp, key=key, present=False, removed=False)
-    s0.pc.append((("present", mp, key, n), False, site))
+    s0.add_pc(("present", mp, key, n), False, site)
     out.append((s0, NoneV()))
     # key present: closure runs under the shard lock
     s1 = st.fork()
     stored = ("stored", mp, key, n)
-    s1.pc.append((("present", mp, key, n), True, site))
+    s1.add_pc(("present", mp, key, n), True, site)
     for s2, b in I.invoke(s1, f, [key, stored], depth, site, label="under_lock:remove_if"):
         for s3, truth in truth_forks(I, s2, b):
             _ev(I, s3, t, site, "remove_if", map=mp, key=key, present=True, removed=truth, pred=b, stored=stored)
